@@ -439,6 +439,33 @@ func genWScreen() {
 		}
 		fmt.Fprintf(&flb, "  (%s, %s)%s\n", wLeanStr(n), sk, sep)
 	}
+	flb.WriteString("]\n\n/-- (method, number of `select` statements in it, number of those that have a `default` clause — a select with a default\n    never waits), for every *wScreen method that contains a select -/\ndef wSelects : List (String × Nat × Nat) := [")
+	first := true
+	for _, n := range mnames {
+		fd := w.recv[n]
+		if fd.Body == nil {
+			continue
+		}
+		sel, dflt := 0, 0
+		ast.Inspect(fd.Body, func(nd ast.Node) bool {
+			if ss, ok := nd.(*ast.SelectStmt); ok {
+				sel++
+				for _, c := range ss.Body.List {
+					if cc, ok := c.(*ast.CommClause); ok && cc.Comm == nil {
+						dflt++
+					}
+				}
+			}
+			return true
+		})
+		if sel > 0 {
+			if !first {
+				flb.WriteString(", ")
+			}
+			first = false
+			fmt.Fprintf(&flb, "(%s, %d, %d)", wLeanStr(n), sel, dflt)
+		}
+	}
 	flb.WriteString("]\n\nend Tcell.Gen\n")
 	writeFile(outDir+"/wlockfacts.txt", fb.String())
 	writeFile(leanDir+"/Tcell/Gen/WLockFacts.lean", flb.String())
